@@ -3,7 +3,8 @@ import re, json, random
 import t2t, corr, gen, shellrun, impl
 
 OBLIGATIONS = ['Yalafi.C18_include_nodup', 'Yalafi.C18_include_closed', 'Yalafi.C18_include_reachable', 'Yalafi.C18_addTex',
-               'Yalafi.C18_extract_e2e', 'Yalafi.C18_extract_exact', 'Yalafi.C18_extract_listed', 'Yalafi.C18_extract_decls', 'Yalafi.C18_extract_footnote_current', 'Yalafi.C18_extract_foo_current', 'Yalafi.C18_extract_mixed_current', 'Yalafi.C18_extract_foo_example_current', 'Yalafi.C18_extract_footnote_example_current']
+               'Yalafi.C18_extract_e2e', 'Yalafi.C18_extract_exact', 'Yalafi.C18_extract_listed', 'Yalafi.C18_extract_decls', 'Yalafi.C18_extract_footnote_current', 'Yalafi.C18_extract_foo_current', 'Yalafi.C18_extract_mixed_current', 'Yalafi.C18_extract_foo_example_current', 'Yalafi.C18_extract_footnote_example_current',
+               'Yalafi.C18_include_terminates', 'Yalafi.C18_include_bfs', 'Yalafi.C18_include_order_unique', 'Yalafi.C18_includes_of_document', 'Yalafi.C18_inclList', 'Yalafi.C18_include_system', 'Yalafi.C18_include_files_current', 'Yalafi.C18_include_system_current', 'Yalafi.C18_include_example_current', 'Yalafi.C18_include_skip_example_current', 'Yalafi.C18_include_blank_current', 'Yalafi.C18_include_system_example_current']
 
 # ---- extraction ---------------------------------------------------------------
 
